@@ -94,6 +94,14 @@ def fam_noncomm(rng):
     return QuantumScript(ops, meas[: rng.randint(2, 4)] + ([qp.var(qp.Z(1))] if rng.random() < 0.3 else []))
 
 
+def fam_qwc(rng):
+    """qubit-wise commuting observables that share wires"""
+    ops = [qp.RX(_ang(rng), 0), qp.RY(_ang(rng), 1), qp.CNOT([0, 1]), qp.RY(_ang(rng), 0)]
+    meas = [qp.expval(qp.X(0)), qp.expval(qp.X(0) @ qp.Y(1))] + [qp.var(qp.Y(1)), qp.expval(qp.Y(1))][: rng.randint(0, 2)]
+    rng.shuffle(meas)
+    return QuantumScript(ops, meas)
+
+
 def fam_ham(rng):
     """a single Hamiltonian expectation value"""
     ops = [qp.RX(_ang(rng), 0), qp.RY(_ang(rng), 1), qp.CNOT([0, 1])]
@@ -128,7 +136,21 @@ def fam_bcast(rng):
     """broadcasted parameters"""
     n = rng.choice([2, 3])
     ops = [qp.RX(np.array([_ang(rng) for _ in range(n)]), 0), qp.RY(_ang(rng), 1), qp.CNOT([0, 1]), qp.RZ(np.array([_ang(rng) for _ in range(n)]), 1)]
-    return QuantumScript(ops, [qp.expval(qp.Z(0)), qp.expval(qp.Z(1))], trainable_params=rng.choice([[1], [0, 2]]))
+    return QuantumScript(ops, [qp.expval(qp.Z(0)), qp.expval(qp.Z(1))], trainable_params=[0, 2])
+
+
+def fam_bcast_in(rng):
+    """broadcasted non-trainable inputs"""
+    n = rng.choice([2, 3])
+    ops = [qp.RX(np.array([_ang(rng) for _ in range(n)]), 0), qp.RY(_ang(rng), 1), qp.CNOT([0, 1])]
+    return QuantumScript(ops, [qp.expval(qp.Z(0)), qp.expval(qp.Z(1))], trainable_params=[1])
+
+
+def fam_mbqc(rng):
+    """the MBQC gate set with a single sample measurement"""
+    pool = [qp.H(0), qp.S(1), qp.CNOT([0, 1]), qp.RZ(_ang(rng), 1), qp.X(0), qp.Z(1), qp.H(1), qp.S(0)]
+    rng.shuffle(pool)
+    return QuantumScript(pool[: rng.randint(2, 4)], [qp.sample(wires=[0, 1])], shots=10)
 
 
 def fam_cnot(rng):
@@ -220,7 +242,8 @@ def fam_unitary(rng):
 
 FAMILIES = {"rot": fam_rot, "ctrl": fam_ctrl, "noncomm": fam_noncomm, "ham": fam_ham, "shots": fam_shots, "mcm": fam_mcm, "bcast": fam_bcast,
             "cnot": fam_cnot, "cnotrz": fam_cnotrz, "cut": fam_cut, "cutmc": fam_cutmc, "alloc": fam_alloc, "embed": fam_embed,
-            "clifft": fam_clifft, "toffoli": fam_toffoli, "shadow": fam_shadow, "pauli": fam_pauli, "rzonly": fam_rzonly, "unitary": fam_unitary}
+            "clifft": fam_clifft, "toffoli": fam_toffoli, "shadow": fam_shadow, "pauli": fam_pauli, "rzonly": fam_rzonly, "unitary": fam_unitary,
+            "bcast_in": fam_bcast_in, "mbqc": fam_mbqc, "qwc": fam_qwc}
 
 
 # ------------------------------------------------------------------ recipes: minimal valid arguments per transform
@@ -237,6 +260,9 @@ RECIPES = {
     "add_noise": lambda: ((_noise_model(),), {}),
     "apply_controlled_Q": lambda: ((), dict(wires=[0, 1], target_wire=1, control_wire="c", work_wires=None)),
     "batch_input": lambda: ((), dict(argnum=[0])),
+    "append_gate": lambda: ((), dict(params=[0.3], gates=[qp.RX(0.1, 0)])),
+    "append_time_evolution": lambda: ((), dict(riemannian_gradient=qp.Hamiltonian([0.5, 0.2], [qp.X(0), qp.Z(0) @ qp.Z(1)]), t=0.1, n=1)),
+    "algebra_commutator": lambda: ((), dict(lie_algebra_basis_names=["XI", "ZZ"], nqubits=2)),
     "cut_circuit": lambda: ((), dict(device_wires=qp.wires.Wires([0, 1]))),
     "cut_circuit_mc": lambda: ((), dict(device_wires=qp.wires.Wires([0, 1]))),
     "to_openqasm.decompose": lambda: ((), dict(stopping_condition=_prim, name="verif")),
